@@ -212,3 +212,42 @@ Lemma wf_dhcpv6 : wf_fmt fmt_dhcpv6. Proof. split; cbn; auto. Qed.
 Lemma wf_dot11 : wf_fmt fmt_dot11. Proof. split; cbn; auto. Qed.
 Lemma wf_icmpv6 : wf_fmt fmt_icmpv6. Proof. split; cbn; auto. Qed.
 Lemma wf_pppoe : wf_fmt fmt_pppoe. Proof. split; cbn; auto. Qed.
+
+(* ---- the cached size under add / remove histories is the number of octets written ---- *)
+Fixpoint total_size (f : fmt) (os : list (Z * list Z)) : Z :=
+  match os with [] => 0 | o :: r => opt_size f o + total_size f r end.
+
+Lemma total_size_app f a b : total_size f (a ++ b) = total_size f a + total_size f b.
+Proof. induction a as [|o r IH]; cbn [app total_size]; [lia|]. rewrite IH. lia. Qed.
+
+Lemma total_size_encode f os : wf_fmt f -> total_size f os = zlen (tlv_encode f os).
+Proof.
+  intros Hf. induction os as [|o r IH]; [reflexivity|]. cbn [total_size tlv_encode flat_map].
+  fold (tlv_encode f r). rewrite zlen_app, zlen_encode_opt, IH by assumption. unfold opt_size. lia.
+Qed.
+
+Lemma remove_first_size f c : forall os,
+  match remove_first c os with
+  | (Some o, r) => total_size f os = total_size f r + opt_size f o
+  | (None, r) => r = os
+  end.
+Proof.
+  induction os as [|o r IH]; cbn [remove_first]; [reflexivity|].
+  destruct (fst o =? c); [cbn [total_size]; lia|].
+  destruct (remove_first c r) as [[x|] r']; cbn [total_size] in *; [lia|congruence].
+Qed.
+
+Lemma hstep_inv f st h : snd st = total_size f (fst st) -> snd (hstep f st h) = total_size f (fst (hstep f st h)).
+Proof.
+  intros H. destruct h as [o|c]; cbn [hstep fst snd].
+  - rewrite total_size_app. cbn [total_size]. lia.
+  - pose proof (remove_first_size f c (fst st)) as Hr. destruct (remove_first c (fst st)) as [[o|] r]; cbn [fst snd]; [lia|assumption].
+Qed.
+
+Theorem cached_size_exact f hs : wf_fmt f -> snd (hrun f hs) = zlen (tlv_encode f (fst (hrun f hs))).
+Proof.
+  intros Hf. rewrite <- total_size_encode by assumption. unfold hrun.
+  assert (G : forall st, snd st = total_size f (fst st) -> snd (fold_left (hstep f) hs st) = total_size f (fst (fold_left (hstep f) hs st))).
+  { induction hs as [|h r IH]; intros st H; [assumption|]. cbn [fold_left]. apply IH, hstep_inv, H. }
+  apply G. reflexivity.
+Qed.
